@@ -290,6 +290,18 @@ def _p7(ctx):
         ctx.add('P7c', 'T-DOM', park, okh and okc and okt, 'park: lock -> re-check -> register current task, in one lock region' if okh and okc and okt else
                 'FutWait::park: registration under the list lock=%s, condition re-checked under the lock=%s, registers the current task=%s' % (okh, okc, okt),
                 where=g.where(p), sub='park')
+    # the waiter the futures constructors install parks tasks in that list: the senders only call notify() when the
+    # waiter says it needs it, so needs_notify() must be true for it (own or provided method body alike)
+    for w in sorted(installed):
+        meths = wi.get(w) or {}
+        if 'needs_notify' not in meths:
+            continue
+        gq = ctx.graph(meths['needs_notify'])
+        nn = gq.strip(gq.ev_local(gq.root_inst, 0))
+        oknn = nn[0] == 'c' and str(nn[1]) == '1'
+        ctx.add('P7c', 'T-SIB', meths['needs_notify'], oknn, '%s (installed by the futures constructors, parks tasks) has needs_notify()==true' % w if oknn else
+                '%s parks tasks until notify() but its needs_notify() is not the constant true: a plain try_send never wakes a parked Stream task' % w,
+                sub=w + '|needs-notify')
     # fut_wait returns true only after park registered the task (P7d)
     fw = ctx.fn1(r'^multiqueue::FutWait::fut_wait$')
     g = ctx.graph(fw)
